@@ -80,9 +80,12 @@ def run(tier, seed, replay=None, prop=PROP):
                            and e.get("probe", v.get("probe")) == v.get("probe")],
                 "how": "bin/check %s --replay <this file>" % prop}
 
-    fams = {}
+    fams, applic = {}, {}
     for c in cases:
         fams[c["fam"]] = fams.get(c["fam"], 0) + 1
+        a = applic.setdefault(c["fam"], {"valid": 0, "valid_declared_only": 0})
+        a["valid"] += sum(1 for p in c["probes"] if p["valid"])
+        a["valid_declared_only"] += sum(1 for p in c["probes"] if p["valid"] and p["declared"])
     return vlib.finish(
         prop, tier, seed, t0, mine, events, cases, mc_stats, tstats,
         {"exhaustive": replay is None,
@@ -94,6 +97,7 @@ def run(tier, seed, replay=None, prop=PROP):
          "distinct_nontrivial": nvalid if prop == "C02" else ndecl,
          "documents": len(cases), "instances": sum(len(c["probes"]) for c in cases),
          "valid_instances": nvalid, "valid_declared_only": ndecl, "families": fams,
+         "applicability_by_family": applic,
          "generated_crates": gst, "cases_not_generated_or_not_compiled": not_generated,
          "oracle_selfcheck": {"checked": oc["checked"], "disagreements": oc["n_disagree"]},
          "impl_model_exclusive": excl},
